@@ -19,6 +19,7 @@ type Violation struct {
 	Node     string `json:"node,omitempty"`
 	Detail   string `json:"detail"`
 	Key      string `json:"key"` // stable identity of the failing site, for known-findings matching
+	Engine   string `json:"engine,omitempty"`
 }
 
 func (v Violation) String() string {
@@ -129,6 +130,11 @@ func NewRunner(p *Plan, opts RunOpts) *Runner {
 
 func (r *Runner) violate(prop, oracle string, step int, node string, key string, f string, a ...any) {
 	v := Violation{Property: prop, Oracle: oracle, Step: step, Node: node, Detail: fmt.Sprintf(f, a...), Key: key}
+	for _, n := range r.Nodes {
+		if n.Cfg.Name == node {
+			v.Engine = n.Cfg.Engine
+		}
+	}
 	r.V = append(r.V, v)
 	if r.Opts.Verbose {
 		fmt.Println("  VIOL", v.String())
